@@ -24,11 +24,6 @@ Definition expect_eqb (a b : expect) : bool :=
 Fixpoint ccollected (st : cstmt) : list cstmt :=
   match st with CClass _ body => st :: flat_map ccollected body | _ => [st] end.
 
-Definition has_indirect (e : expr) : bool :=
-  match e with
-  | ECall _ _ kws => existsb (fun kv => match kv with (Some a, _) => String.eqb a "indirect" | _ => false end) kws
-  | _ => false
-  end.
 Definition dec_expect (l : N) (d : cdec) : list expect :=
   if within l (cd_start d) (cd_end d)
   then if mark_spelling "usefixtures" (cd_expr d) then [EUse]
